@@ -105,7 +105,9 @@ def record_programs(seed, start, count):
             for rep_i in range(rng.choice([1, 2, 4])):
                 cls = [rng.choice([b'5', b'10', b'7', b'3']) for _ in range(rng.choice([2, 2, 3]))]
                 hosts = [rng.choice([b'example.com', b'other.example', b'third.example']) for _ in range(rng.choice([0, 2, 3]))]
-                extra = [(b'content-length', v) for v in cls] + [(b'host', v) for v in hosts]
+                # repeated cookie crumbs, some byte-identical and some not: how they are joined must not depend on the process
+                crumbs = [rng.choice([b'a=1', b'b=2', b'c=3', b'sid=0123456789abcdefghij', b'']) for _ in range(rng.choice([0, 3, 4, 6]))]
+                extra = [(b'content-length', v) for v in cls] + [(b'host', v) for v in hosts] + [(b'cookie', v) for v in crumbs]
                 rng.shuffle(extra)
                 if e_client:
                     # outbound: the same lists through send_headers (validation of :authority against host)
@@ -116,7 +118,8 @@ def record_programs(seed, start, count):
                     nsid += 2
                     if not r.ok:
                         continue
-                    t.call('receive_data', wire.build_headers(sid, hm.encode([(b':status', b'200')] + [(b'content-length', v) for v in cls])))
+                    t.call('receive_data', wire.build_headers(sid, hm.encode([(b':status', b'200')] + [(b'content-length', v) for v in cls] +
+                                                                              [(b'cookie', v) for v in crumbs])))
                 else:
                     sid = pg.next_sid
                     pg.next_sid += 2
